@@ -1,16 +1,63 @@
 (* C01: the core CREATE TABLE fragment against the real keyword tables, flag logic and LALR tables. *)
 From Coq Require Import String Ascii List ZArith NArith PArith Bool Lia.
-From SDP Require Import Base PyStr LR Lexer Actions Parse RealTables Engine Seq SeqProofs Table.
+From SDP Require Import Base PyStr LR Lexer Actions Parse RealTables Engine Seq SeqProofs KeywordProofs Entity EntityProofs Table.
 Import ListNotations.
 Open Scope list_scope.
 
 Definition R : list (Table.q * conf) :=
   explore real_tables term_id Table.q Table.q_eqb Table.fstep Table.alphabet 4000 [(T0, (flags0, [0%N]))] [].
 
+(* one evaluation by the kernel's VM at Qed time (the cast is checked by the kernel) *)
+Lemma R_ok : closed real_tables term_id real_pname Table.q Table.q_eqb Table.fstep Table.ffinish Table.alphabet R
+             && in_R Table.q Table.q_eqb R T0 (flags0, [0%N]) = true.
+Proof. vm_cast_no_check (eq_refl true). Qed.
 Lemma R_closed : closed real_tables term_id real_pname Table.q Table.q_eqb Table.fstep Table.ffinish Table.alphabet R = true.
-Proof. vm_compute. reflexivity. Qed.
+Proof. pose proof R_ok as H. apply andb_true_iff in H. exact (proj1 H). Qed.
 Lemma R_init : In (T0, (flags0, [0%N])) R.
-Proof. apply (in_R_In Table.q Table.q_eqb Table.q_eqb_eq). vm_compute. reflexivity. Qed.
+Proof. apply (in_R_In Table.q Table.q_eqb Table.q_eqb_eq). pose proof R_ok as H. apply andb_true_iff in H. exact (proj2 H). Qed.
+
+Lemma colname_keywords_are_the_accepted : colname_keywords = filter accepted_column_name keywords.
+Proof. vm_cast_no_check (eq_refl colname_keywords). Qed.
+(* the keywords that can NOT name a column / a referenced column (typed as keywords even there, or own lexer rules) *)
+Lemma rejected_column_names :
+  filter (fun k => negb (accepted_column_name k)) keywords =
+  ["AUTOINCREMENT"; "BY"; "CHECK"; "CLUSTER"; "COLLATE"; "CONSTRAINT"; "FOREIGN"; "INDEX"; "LIKE"; "PRIMARY"; "UNIQUE"; "WITH"]%string.
+Proof. vm_cast_no_check (eq_refl ["AUTOINCREMENT"; "BY"; "CHECK"; "CLUSTER"; "COLLATE"; "CONSTRAINT"; "FOREIGN"; "INDEX"; "LIKE"; "PRIMARY"; "UNIQUE"; "WITH"]%string). Qed.
+
+(* ---------- the reference machine at the name positions (any accepted name letter) -------------------------------------- *)
+Lemma f_T2 l : is_name_letter l = true -> Table.fstep T2 l = Some ((["create_table -> CREATE TABLE"], "ID", Keep)%string, N1).
+Proof. intro H. unfold Table.fstep. rewrite H. reflexivity. Qed.
+Lemma f_ND l : is_name_letter l = true -> Table.fstep ND l = Some (([], "ID", Keep)%string, N2).
+Proof. intro H. unfold Table.fstep. rewrite H. reflexivity. Qed.
+Lemma f_C0 c l : is_col_letter l = true -> Table.fstep (C0 c) l = Some (([], "ID", Keep)%string, C1 c).
+Proof. intro H. unfold Table.fstep. rewrite H. reflexivity. Qed.
+Lemma f_RC0 c l : is_col_letter l = true -> Table.fstep (RC0 c) l = Some (([], "ID", Keep)%string, RC1 c).
+Proof. intro H. unfold Table.fstep. rewrite H. reflexivity. Qed.
+Lemma G_is_col_letter : is_col_letter G = true.
+Proof. vm_compute. reflexivity. Qed.
+
+Lemma is_col_word_spec w : is_col_word w = true -> is_col_letter (LWord (info_of w)) = true /\ strip_trailing_comma w = w.
+Proof. unfold is_col_word. intro H. apply andb_true_iff in H. destruct H as [H1 H2]. apply String.eqb_eq in H2. auto. Qed.
+Lemma match_col_word w : is_col_word w = true -> matches (W w) (LWord (info_of w)).
+Proof. intro H. apply is_col_word_spec in H. simpl. tauto. Qed.
+Lemma col_letter_in_alphabet l : is_col_letter l = true -> In l Table.alphabet.
+Proof.
+  unfold is_col_letter. intro H. apply existsb_exists in H. destruct H as [x [Hin Hx]]. apply letter_eqb_eq in Hx. subst x.
+  unfold Table.alphabet. apply in_or_app. right. apply in_or_app. right. exact Hin.
+Qed.
+Lemma name_letter_in_table_alphabet l : is_name_letter l = true -> In l Table.alphabet.
+Proof.
+  intro H. unfold Table.alphabet. apply in_or_app. right. apply in_or_app. left. exact (name_letter_In l H).
+Qed.
+Global Opaque is_col_letter colname_letters.
+
+Lemma frun_cons (s : Table.q) l r :
+  frun Table.q Table.fstep s (l :: r) =
+  match Table.fstep s l with
+  | None => None
+  | Some (o, s') => match frun Table.q Table.fstep s' r with None => None | Some (os, s'') => Some (o :: os, s'') end
+  end.
+Proof. reflexivity. Qed.
 
 (* ================= proof device: options flattened into items ============================================= *)
 Inductive item :=
@@ -57,7 +104,7 @@ Definition item_letters (i : item) : list letter :=
   | IUq _ => [K "UNIQUE"]
   | IRefStart _ (Some _) _ => [K "REFERENCES"; G; LDot; G]
   | IRefStart _ None _ => [K "REFERENCES"; G]
-  | IRefCol _ => [LPl; G; RPl]
+  | IRefCol c => [LPl; LWord (info_of c); RPl]
   | IOnDel _ _ _ => [K "ON"; K "DELETE"; G]
   | IOnUpd _ _ _ => [K "ON"; K "UPDATE"; G]
   end%string.
@@ -122,11 +169,19 @@ Definition fos_item (p : pend) (i : item) : list fout :=
 
 Notation Frun := (frun Table.q Table.fstep).
 
-Lemma frun_item c p i : item_ok p i = true ->
+Definition item_letters_ok (i : item) : bool := match i with IRefCol c => is_col_letter (LWord (info_of c)) | _ => true end.
+Lemma frun_item c p i : item_letters_ok i = true -> item_ok p i = true ->
   Frun (B c p) (item_letters i) = Some (fos_item p i, B c (pend_of_item i)).
 Proof.
   destruct i as [[nk|nk1 nk2]|kw v|kw kn|kw s|a b|k|kw [sc|] tb|cn|a b act|a b act|[nk|nk1 nk2]];
-    destruct p; destruct c; cbn [item_ok refopen negb pend_eqb orb]; intro H; try discriminate H; vm_compute; reflexivity.
+    cbn [item_letters_ok]; intro Hl.
+  10: { cbn [item_letters fos_item pend_of_item]. intro H.
+        assert (E1 : Table.fstep (B c p) LPl = Some ((ref_reds p, "LP", Keep)%string, RC0 c))
+          by (destruct p; destruct c; cbn [item_ok pend_eqb orb] in H; try discriminate H; vm_compute; reflexivity).
+        assert (E3 : Table.fstep (RC1 c) RPl = Some ((["id -> ID"; "pid -> id"], "RP", Upper)%string, B c PRefCol))
+          by (destruct c; vm_compute; reflexivity).
+        rewrite frun_cons, E1; cbv beta iota. rewrite frun_cons, (f_RC0 c _ Hl); cbv beta iota. rewrite frun_cons, E3. reflexivity. }
+  all: destruct p; destruct c; cbn [item_ok refopen negb pend_eqb orb]; intro H; try discriminate H; vm_compute; reflexivity.
 Qed.
 Lemma fos_item_length p i : List.length (fos_item p i) = List.length (item_lexemes i).
 Proof. destruct i as [[nk|nk1 nk2]|kw v|kw kn|kw s|a b|k|kw [sc|] tb|cn|a b act|a b act|[nk|nk1 nk2]]; reflexivity. Qed.
@@ -218,7 +273,7 @@ Definition wf_item (norm : bool) (i : item) : bool :=
   | IPk a b => is_kw a "PRIMARY" && is_kw b "KEY"
   | IUq k => is_kw k "UNIQUE"
   | IRefStart kw sch t => is_kw kw "REFERENCES" && match sch with Some s => is_plain s | None => true end && is_plain t
-  | IRefCol c => is_plain c
+  | IRefCol c => is_col_word c
   | IOnDel a b act => is_kw a "ON" && is_kw b "DELETE" && is_action_word norm act
   | IOnUpd a b act => is_kw a "ON" && is_kw b "UPDATE" && is_action_word norm act
   end%string.
@@ -264,7 +319,7 @@ Section Column.
 
   Ltac boundary it Hp Hok :=
     eexists; split;
-    [ eexists (fos_item _ it); split; [apply frun_item; exact Hok|]; split; [reflexivity|];
+    [ eexists (fos_item _ it); split; [apply frun_item; [first [reflexivity | match goal with X : is_col_word _ = true |- _ => exact (proj1 (is_col_word_spec _ X)) end] | exact Hok]|]; split; [reflexivity|];
       cbn [fos_item item_lexemes null_lexemes ntrace snd W SB DOTL LPx RPx apply_vtag idk]; rew_upper;
       rewrite (exec_app _ _ _ _ _ Hp); run_exec; reflexivity
     | unfold Inv, apply_item; cbn [snd fst pend_of_item]; split; [reflexivity|];
@@ -272,7 +327,7 @@ Section Column.
 
   Ltac cont it H Hok :=
     eexists; split;
-    [ eexists (fos_item _ it); split; [apply frun_item; exact Hok|]; split; [reflexivity|];
+    [ eexists (fos_item _ it); split; [apply frun_item; [first [reflexivity | match goal with X : is_col_word _ = true |- _ => exact (proj1 (is_col_word_spec _ X)) end] | exact Hok]|]; split; [reflexivity|];
       cbn [fos_item item_lexemes null_lexemes ntrace snd W SB DOTL LPx RPx apply_vtag idk]; rew_upper;
       rewrite (exec_app _ _ _ _ _ H); run_exec; reflexivity
     | unfold Inv, apply_item; cbn [snd fst pend_of_item]; split; [reflexivity|];
@@ -390,7 +445,7 @@ Qed.
 Definition sepv (c : ctx) : pyval := match c with First => PStr "(" | Later => PStr "," end.
 
 Definition hdr_letters (col : column) : list letter :=
-  G :: G :: (match c_ty2 col with Some _ => [G] | None => [] end)
+  LWord (info_of (c_name col)) :: G :: (match c_ty2 col with Some _ => [G] | None => [] end)
   ++ (match c_size col with
       | Some (_, None) => [LPl; G; RPl]
       | Some (_, Some _) => [LPl; G; CMl; G; RPl]
@@ -421,9 +476,12 @@ Definition hdr_fos (col : column) : list fout :=
           end
       end)%string.
 
-Lemma frun_hdr c col : Frun (C0 c) (hdr_letters col) = Some (hdr_fos col, B c (hdr_pend col)).
+Lemma frun_hdr c col : is_col_letter (LWord (info_of (c_name col))) = true ->
+  Frun (C0 c) (hdr_letters col) = Some (hdr_fos col, B c (hdr_pend col)).
 Proof.
-  unfold hdr_letters, hdr_fos, hdr_pend. destruct c; destruct (c_ty2 col); destruct (c_size col) as [[a [b|]]|]; vm_compute; reflexivity.
+  intro Hl. unfold hdr_letters, hdr_fos, hdr_pend. rewrite frun_cons, (f_C0 c _ Hl). cbv beta iota.
+  destruct c; destruct (c_ty2 col); destruct (c_size col) as [[a [b|]]|];
+    match goal with |- match ?X with _ => _ end = _ => let v := eval vm_compute in X in change X with v end; reflexivity.
 Qed.
 Lemma hdr_length col : List.length (hdr_fos col) = List.length (hdr_lexemes col).
 Proof. unfold hdr_fos, hdr_lexemes. destruct (c_ty2 col); destruct (c_size col) as [[a [b|]]|]; reflexivity. Qed.
@@ -491,6 +549,7 @@ Proof.
   unfold is_colname, is_type_word in *.
   repeat match goal with X : (_ && _) = true |- _ => let Y := fresh "Hy" in apply andb_true_iff in X; destruct X as [X Y] end.
   repeat match goal with X : negb _ = true |- _ => apply negb_true_iff in X end.
+  match goal with X : is_col_word _ = true |- _ => pose proof (proj1 (is_col_word_spec _ X)) as Hcl end.
   destruct col as [cname t1 t2 csz copts]. cbn [c_name c_ty1 c_ty2 c_size c_opts] in *.
   unfold Steps, Inv, col_type, col_size. cbn [c_name c_ty1 c_ty2 c_size c_opts snd fst].
   destruct t2 as [t2|]; destruct csz as [[a [b|]]|];
@@ -499,7 +558,7 @@ Proof.
              let E := fresh "En" in let N := fresh "Nu" in let z := fresh "z" in let Hz := fresh "Hz" in
              pose proof (is_digits_spec norm _ X) as [E [N [z Hz]]]; clear X end;
     (eexists; split;
-     [ eexists; split; [apply frun_hdr|]; split; [apply hdr_length|];
+     [ eexists; split; [apply frun_hdr; exact Hcl|]; split; [apply hdr_length|];
        cbn [hdr_fos hdr_lexemes c_name c_ty1 c_ty2 c_size app map ntrace snd W LPx RPx CMx apply_vtag idk]; rewrite ?upper_comma, ?upper_rp;
        repeat (step; repeat match goal with E : nms norm ?a = ?a |- _ => rewrite E end); rewrite exec_nil; reflexivity
      | split; [reflexivity|]; cbn [hdr_pend c_ty2 c_size pend_reds map];
@@ -594,7 +653,14 @@ Qed.
 
 (* ---------- CREATE TABLE [schema.]name ( ------------------------------------------------------------------------------ *)
 Definition top_letters (t : table) : list letter :=
-  K "CREATE" :: K "TABLE" :: (match t_schema t with Some _ => [G; LDot] | None => [] end) ++ [G; LPl].
+  K "CREATE" :: K "TABLE" :: (match t_schema t with Some s => [LWord (info_of s); LDot] | None => [] end) ++ [LWord (info_of (t_name t)); LPl].
+Lemma f_T0 : Table.fstep T0 (K "CREATE") = Some (([], "CREATE", Upper)%string, T1). Proof. vm_compute. reflexivity. Qed.
+Lemma f_T1 : Table.fstep T1 (K "TABLE") = Some (([], "TABLE", Upper)%string, T2). Proof. vm_compute. reflexivity. Qed.
+Lemma f_N1_dot : Table.fstep N1 LDot = Some ((["id -> ID"], "DOT", Keep)%string, ND). Proof. vm_compute. reflexivity. Qed.
+Lemma f_N1_lp : Table.fstep N1 LPl = Some ((["id -> ID"; "t_name -> id"; "table_name -> create_table t_name"], "LP", Keep)%string, C0 First).
+Proof. vm_compute. reflexivity. Qed.
+Lemma f_N2_lp : Table.fstep N2 LPl = Some ((["id -> ID"; "t_name -> id DOT id"; "table_name -> create_table t_name"], "LP", Keep)%string, C0 First).
+Proof. vm_compute. reflexivity. Qed.
 Definition top_lexemes (t : table) : list lexeme :=
   W (t_create t) :: W (t_table t) :: (match t_schema t with Some s => [W s; DOTL] | None => [] end) ++ [W (t_name t); LPx].
 
@@ -604,11 +670,13 @@ Lemma top_steps norm t : wf norm t = true ->
 Proof.
   unfold wf. intro H. split_all H.
   pose proof (is_kw_spec _ _ H) as [Hu1 _]. pose proof (is_kw_spec _ _ Hw3) as [Hu2 _].
+  pose proof (proj1 (is_name_spec _ Hw1)) as Hn.
   unfold Steps, top_letters, top_lexemes. destruct (t_schema t) as [s|]; cbn [app].
-  - eexists. split; [vm_compute; reflexivity|]. split; [reflexivity|].
+  - pose proof (proj1 (is_name_spec _ Hw2)) as Hs.
+    eexists. split; [rewrite frun_cons, f_T0; cbv beta iota; rewrite frun_cons, f_T1; cbv beta iota; rewrite frun_cons, (f_T2 _ Hs); cbv beta iota; rewrite frun_cons, f_N1_dot; cbv beta iota; rewrite frun_cons, (f_ND _ Hn); cbv beta iota; rewrite frun_cons, f_N2_lp; reflexivity|]. split; [reflexivity|].
     cbn [ntrace map app snd W DOTL LPx apply_vtag]. rewrite Hu1, Hu2.
     cbn [map exec]. arities. cbn [firstn skipn rev app]. unfold action; simpl. reflexivity.
-  - eexists. split; [vm_compute; reflexivity|]. split; [reflexivity|].
+  - eexists. split; [rewrite frun_cons, f_T0; cbv beta iota; rewrite frun_cons, f_T1; cbv beta iota; rewrite frun_cons, (f_T2 _ Hn); cbv beta iota; rewrite frun_cons, f_N1_lp; reflexivity|]. split; [reflexivity|].
     cbn [ntrace map app snd W DOTL LPx apply_vtag]. rewrite Hu1, Hu2.
     cbn [map exec]. arities. cbn [firstn skipn rev app]. unfold action; simpl. reflexivity.
 Qed.
@@ -641,6 +709,7 @@ Ltac fmt :=
          | |- Forall2 _ [] [] => constructor
          | |- matches (W _) (K _) => apply match_kw; assumption
          | |- matches (W _) G => apply match_plain; assumption
+         | |- matches (W ?n) (LWord (info_of ?n)) => first [apply match_col_word; assumption | apply match_name; assumption]
          | |- matches DOTL LDot => exact match_dot
          | |- matches (SB _) LStr => apply match_str
          | |- matches LPx LPl => apply match_sym; tauto
@@ -654,7 +723,7 @@ Lemma plain_of_action norm v : is_action_word norm v = true -> is_plain v = true
 Proof. unfold is_action_word. intro H. apply andb_true_iff in H. tauto. Qed.
 Lemma plain_of_type norm v : is_type_word norm v = true -> is_plain v = true.
 Proof. unfold is_type_word. intro H. apply andb_true_iff in H. tauto. Qed.
-Lemma plain_of_colname norm v : is_colname norm v = true -> is_plain v = true.
+Lemma plain_of_colname norm v : is_colname norm v = true -> is_col_word v = true.
 Proof. unfold is_colname. intro H. apply andb_true_iff in H. tauto. Qed.
 Lemma plain_of_digits v : is_digits v = true -> is_plain v = true.
 Proof. unfold is_digits. intro H. apply andb_true_iff in H. destruct H as [H _]. apply is_num_spec in H. tauto. Qed.
@@ -699,29 +768,43 @@ Proof.
     constructor; [fmt|]. apply Forall2_app; [apply (col_matches norm); exact Hc2|apply IH; exact Hr].
 Qed.
 
-Ltac inal := unfold Table.alphabet; repeat (first [left; reflexivity | right]).
+Ltac inal := solve [unfold Table.alphabet; apply in_or_app; left; repeat (first [left; reflexivity | right])].
 Ltac fall := repeat match goal with |- Forall _ (_ :: _) => constructor | |- Forall _ [] => constructor end; try inal.
 
-Lemma item_in_alphabet i : Forall (fun l => In l Table.alphabet) (item_letters i).
+Lemma item_in_alphabet norm i : wf_item norm i = true -> Forall (fun l => In l Table.alphabet) (item_letters i).
 Proof.
   destruct i as [[nk|nk1 nk2]|kw v|kw kn|kw sl|a b|k|kw [sc|] tb|cn|a b act|a b act|[nk|nk1 nk2]];
-    cbn [item_letters null_letters]; fall.
+    cbn [item_letters null_letters wf_item]; intro H; fall.
+  apply col_letter_in_alphabet. apply is_col_word_spec in H. tauto.
 Qed.
-Lemma col_in_alphabet col : Forall (fun l => In l Table.alphabet) (Table.col_letters col).
+Lemma items_in_alphabet norm items : forallb (wf_item norm) items = true ->
+  Forall (fun l => In l Table.alphabet) (flat_map item_letters items).
 Proof.
-  rewrite col_split_letters. apply Forall_app. split.
-  - unfold hdr_letters. destruct (c_ty2 col); destruct (c_size col) as [[a [b|]]|]; cbn [app]; fall.
-  - induction (flat_map items_of (c_opts col)) as [|i r IH]; cbn [flat_map]; [constructor|].
-    apply Forall_app. split; [apply item_in_alphabet|exact IH].
+  induction items as [|i r IH]; cbn [flat_map forallb]; intro H; [constructor|].
+  apply andb_true_iff in H. destruct H as [H1 H2]. apply Forall_app. split; [exact (item_in_alphabet _ _ H1)|exact (IH H2)].
 Qed.
-Lemma letters_in_alphabet t : Forall (fun l => In l Table.alphabet) (Table.letters t).
+Lemma col_in_alphabet norm col : wf_col norm col = true -> Forall (fun l => In l Table.alphabet) (Table.col_letters col).
 Proof.
+  intro Hwf. rewrite col_split_letters. apply Forall_app. split.
+  - unfold wf_col in Hwf. split_all Hwf. apply plain_of_colname in Hwf. apply is_col_word_spec in Hwf. destruct Hwf as [Hl _].
+    unfold hdr_letters. destruct (c_ty2 col); destruct (c_size col) as [[a [b|]]|]; cbn [app];
+      (constructor; [apply col_letter_in_alphabet; exact Hl|]); fall.
+  - apply (items_in_alphabet norm). apply wf_opts_items. unfold wf_col in Hwf. split_all Hwf. assumption.
+Qed.
+Lemma letters_in_alphabet norm t : wf norm t = true -> Forall (fun l => In l Table.alphabet) (Table.letters t).
+Proof.
+  intro Hwf. unfold wf in Hwf. split_all Hwf.
   rewrite table_split_letters. apply Forall_app. split; [|apply Forall_app; split].
-  - unfold top_letters. destruct (t_schema t); cbn [app]; fall.
-  - apply col_in_alphabet.
+  - pose proof (name_letter_in_table_alphabet _ (proj1 (is_name_spec _ Hw1))) as Hn.
+    unfold top_letters. destruct (t_schema t) as [s|]; cbn [app].
+    + pose proof (name_letter_in_table_alphabet _ (proj1 (is_name_spec _ Hw2))) as Hs.
+      constructor; [inal|]. constructor; [inal|]. constructor; [exact Hs|]. constructor; [inal|]. constructor; [exact Hn|]. fall.
+    + constructor; [inal|]. constructor; [inal|]. constructor; [exact Hn|]. fall.
+  - apply (col_in_alphabet norm). assumption.
   - unfold rest_letters. apply Forall_app. split; [|fall].
     induction (t_rest t) as [|c2 r IH]; cbn [flat_map]; [constructor|].
-    constructor; [inal|]. apply Forall_app. split; [apply col_in_alphabet|exact IH].
+    cbn [forallb] in Hw. apply andb_true_iff in Hw. destruct Hw as [Hc2 Hr].
+    constructor; [inal|]. apply Forall_app. split; [apply (col_in_alphabet norm); exact Hc2|apply IH; exact Hr].
 Qed.
 
 (* ---------- THE theorem for the fragment ------------------------------------------------------------------------------- *)
@@ -732,7 +815,7 @@ Proof.
   destruct (table_steps norm t Hwf) as [fos [Hf [Hl He]]].
   unfold parse_lexemes.
   rewrite (pipeline_spec real_tables term_id real_pname Table.q Table.q_eqb Table.q_eqb_eq Table.fstep Table.ffinish Table.alphabet
-                         R R_closed T0 R_init (Table.lexemes t) (Table.letters t) (all_matches norm t Hwf) (letters_in_alphabet t)
+                         R R_closed T0 R_init (Table.lexemes t) (Table.letters t) (all_matches norm t Hwf) (letters_in_alphabet norm t Hwf)
                          fos END ["expr -> expr RP"%string] Hf eq_refl norm silent).
   rewrite (eval_app _ _ _ _ _ He). unfold Table.denote. reflexivity.
 Qed.
